@@ -575,9 +575,26 @@ func (n *ForNode) renderForLoop(w io.Writer, ctx *RenderContext, seq interface{}
 func sortedMapKeys(val reflect.Value) []reflect.Value {
 	keys := val.MapKeys()
 	sort.SliceStable(keys, func(i, j int) bool {
-		return mapKeyString(keys[i]) < mapKeyString(keys[j])
+		si, sj := mapKeyString(keys[i]), mapKeyString(keys[j])
+		if si != sj {
+			return si < sj
+		}
+		// Keys of different dynamic types can have the same string form (the int 1 and the
+		// string "1" in a map[interface{}]T): order those by type name, so that no tie is left
+		// to the map's iteration order
+		return mapKeyTypeName(keys[i]) < mapKeyTypeName(keys[j])
 	})
 	return keys
+}
+
+func mapKeyTypeName(key reflect.Value) string {
+	for key.Kind() == reflect.Interface && !key.IsNil() {
+		key = key.Elem()
+	}
+	if !key.IsValid() {
+		return ""
+	}
+	return key.Type().String()
 }
 
 func mapKeyString(key reflect.Value) string {
